@@ -680,23 +680,45 @@ def impl_plain(c):
     from happysimulator.core.simulation import Simulation
     from happysimulator.core.temporal import Instant
 
-    class Proc(Entity):
+    class Sink(Entity):
         def __init__(self, name):
             super().__init__(name)
             self.log = []
 
         def handle_event(self, event):
             m = event.context["metadata"]
-            self.log.append([self.now.nanoseconds, m["pid"], 0, bool(getattr(self, "_crashed", False))])
-            for k, d in enumerate(m["ds"], 1):
-                yield d / S
-                self.log.append([self.now.nanoseconds, m["pid"], k, bool(getattr(self, "_crashed", False))])
-            return []
+            self.log.append([self.now.nanoseconds, m["pid"], m["k"]])
 
-    tgt, by = Proc("tgt"), Proc("bystander")
+    class Proc(Entity):
+        def __init__(self, name, sink):
+            super().__init__(name)
+            self.log = []
+            self.sink = sink
+
+        def emit(self, pid, k):
+            ev = Event(time=self.now, event_type="out", target=self.sink)
+            ev.context["metadata"].update(pid=pid, k=k)
+            return ev
+
+        def handle_event(self, event):
+            # logs and emits one event to the sink at entry and after every delay
+            m = event.context["metadata"]
+            ds = m["ds"]
+            self.log.append([self.now.nanoseconds, m["pid"], 0, bool(getattr(self, "_crashed", False))])
+            if not ds:
+                return [self.emit(m["pid"], 0)]
+            yield ds[0] / S, [self.emit(m["pid"], 0)]
+            for k in range(1, len(ds) + 1):
+                self.log.append([self.now.nanoseconds, m["pid"], k, bool(getattr(self, "_crashed", False))])
+                if k == len(ds):
+                    return [self.emit(m["pid"], k)]
+                yield ds[k] / S, [self.emit(m["pid"], k)]
+
+    sink, sink_by = Sink("sink"), Sink("sink_by")
+    tgt, by = Proc("tgt", sink), Proc("bystander", sink_by)
     fs, handles = build_schedule(c["faults"], lambda f: _crash_fault(f, "tgt"))
     tmax = max([x for f in c["faults"] for x in (f["s"], f["e"] or 0, f["c"] or 0)] + [a[0] + sum(a[2]) for a in c["arrs"]]) + S
-    sim = Simulation(end_time=Instant(tmax + S), entities=[tgt, by], fault_schedule=fs)
+    sim = Simulation(end_time=Instant(tmax + S), entities=[tgt, by, sink, sink_by], fault_schedule=fs)
     arm_cancels(sim, c["faults"], handles)
     for t, pid, ds in c["arrs"]:
         for ent in (tgt, by):
@@ -706,7 +728,8 @@ def impl_plain(c):
     sim.run()
     order = {a[1]: i for i, a in enumerate(c["arrs"])}
     key = lambda r: (order[r[1]], r[2])
-    return dict(tgt=sorted(tgt.log, key=key), by=sorted(by.log, key=key))
+    return dict(tgt=sorted(tgt.log, key=key), by=sorted(by.log, key=key),
+                sink=sorted(sink.log, key=key), sink_by=sorted(sink_by.log, key=key))
 
 
 def crash_flag_overlap(faults, t):
@@ -727,13 +750,16 @@ def oracle_plain(c, obs):
             exp.append([acc, pid, k, False])
     if obs["by"] != exp:
         return [dict(clause="other entities are unaffected", mechanism="bystander-log-differs", got=obs["by"][:6], expected=exp[:6])]
+    if obs["sink_by"] != [r[:3] for r in exp] or obs["sink"] != [r[:3] for r in obs["tgt"]]:
+        return [dict(clause="every executed step emits exactly one event (harness sanity) / other entities are unaffected",
+                     mechanism="emitted-events-differ-from-executed-steps", sink=obs["sink"][:6], executed=obs["tgt"][:6])]
     entered = {r[1] for r in obs["tgt"] if r[2] == 0}
     for t, pid, k, flag in obs["tgt"]:
         if any(covers(f, t) for f in faults):
             if k >= 1:
                 entry_t = next(a[0] for a in c["arrs"] if a[1] == pid)
                 inflight = not any(covers(f, entry_t) for f in faults) or crash_flag_overlap(faults, entry_t)
-                out.append(dict(clause="while an entity is crashed or paused it executes nothing: no in-flight process advances",
+                out.append(dict(clause="while an entity is crashed or paused it executes nothing: no in-flight process advances and it emits no events",
                                 mechanism="inflight-process-resumed-while-crashed" if inflight else "resume-while-crashed",
                                 t=t, pid=pid, step=k,
                                 what="a generator process that had yielded before the crash is resumed during the crash window: ProcessContinuation.invoke has no _crashed test"))
@@ -882,7 +908,7 @@ PROOF_FILES = ["C06/Model.v", "C06/Registers.v", "C06/Partition.v", "C06/Capacit
 
 def run(ctx):
     ctx.prove(PROOF_FILES, allowed_axioms=(), trusted_base=TRUSTED)
-    n = ctx.n(120, 1800)
+    n = ctx.n(100, 1500)
     for fam in FAMILIES:
         fam.parallel = not ctx.quick      # 120 cases run faster in-process than the pool's start-up
     stats = [run_family(ctx, fam, n) for fam in FAMILIES]
@@ -896,6 +922,13 @@ def run(ctx):
         stats.append(st)
     merge_stats(ctx, stats, "random fault schedules (1-5 faults, endpoints from a pool of <= 6 instants, cancels, permanent crashes); non-trivial = two windows on one target overlap; distinct by JSON of the input")
     ctx.finish_obligations()
+    ctx.assumptions += [
+        "delivery order of fault events (time, creation index; cancelled skipped) is the engine's (C01); assumed in C06/Model.v `delivered`, validated by every correspondence case",
+        "'in effect whatever other faults overlap it' is refuted for all five kinds (c06_*_overlap_refuted; findings C06-overlap-crash/-lat/-loss/-part/-cap); proved for strictly separated windows (c06_effect_while_active_partial, c06_partition_while_active_partial); 'no effect outside windows / back to configured' is proved for every schedule",
+        "'executes nothing while crashed' is refuted for in-flight processes and for queue-fronted targets (findings C06-inflight-process-runs-while-crashed, C06-queued-work-starts-while-crashed); proved: no handler entry while the flag is set, only work that arrived while up is executed",
+        "capacity accounting available + held = capacity is refuted with a single window (C06-capacity-held-ignored); proved: 0 <= available <= capacity <= configured for all schedules and workloads, exact accounting when activations find the resource idle",
+        "float arithmetic of the closures (extra_ms/1000, original*factor, min(1.0, a+b)) is exercised on a dyadic grid only; RandomPartition is not modelled; QueuedResource is modelled as a one-slot FIFO server (queue/driver internals belong to C08)",
+    ]
 
 
 def replay(data):
